@@ -65,6 +65,19 @@ class Lower:
         self.enumconst_cache = {}
         self.cur_ret_ref = False
         self.cb_target = []
+        self.register_specializations()
+
+    def register_specializations(self):
+        """complete class template specialisations (Writer<std::string>, Writer<int>) become records named like their methods' prefix"""
+        for n in list(self.ast.byid.values()):
+            if n.get('kind') == 'ClassTemplateSpecializationDecl' and n.get('completeDefinition') and n.get('name') in ('Writer',):
+                args = [a for a in n.get('inner', []) if a.get('kind') == 'TemplateArgument']
+                if args and 'type' in args[0]:
+                    try:
+                        nm = n['name'] + '_' + self.types.mangle(args[0]['type']['qualType'])
+                    except LowerError:
+                        continue
+                    self.ast.records.setdefault(nm, n)
 
     # ------------------------------------------------------------------ names
     def rec_name_of(self, fn):
@@ -340,6 +353,9 @@ class Lower:
                     ut = self.types.ctype(self.types.enum_underlying(en['name']))
                     self.enumconst_cache[c['id']] = '((%s)%d)' % (ut, val)
         if i not in self.enumconst_cache:
+            ext = {'LZMA_RUN': 0, 'LZMA_FINISH': 3, 'LZMA_OK': 0, 'LZMA_STREAM_END': 1, 'LZMA_CHECK_CRC64': 4}   # liblzma ABI constants (lzma/base.h, check.h)
+            if ref.get('name') in ext:
+                return '((int)%d)' % ext[ref['name']]
             raise LowerError("unknown enum constant " + ref.get('name', '?'))
         return self.enumconst_cache[i]
 
@@ -547,6 +563,9 @@ class Lower:
         if op == ',':
             return '(%s, %s)' % (self.ex(a), self.ex(b))
         if op == '=':
+            if strip(b).get('kind') == 'InitListExpr' and self.types.classify(qt(a))[0] == 'handle':
+                hn = re.sub(r'[^A-Za-z0-9]', '_', self.types.ctype(qt(a)).replace('struct ', ''))
+                return '%s__init(%s)' % (hn, self.addr(self.ex(a)))      # = LZMA_STREAM_INIT and similar all-zero initialisers
             return '%s = %s' % (self.ex(a), self.ex(b))
         return '(%s %s %s)' % (self.ex(a), op, self.ex(b))
 
@@ -768,6 +787,8 @@ class Lower:
             if name in ('size', 'length'):
                 return 'cstring__size(%s)' % optr
             if name in ('data', 'c_str'):
+                if optr.startswith('&(') and not oe.strip().startswith('(*'):
+                    return 'cstring__data_v(%s)' % oe       # c_str() of a temporary string
                 return 'cstring__data(%s)' % optr
             if name == 'empty':
                 return '(cstring__size(%s) == 0)' % optr
@@ -814,7 +835,7 @@ class Lower:
             raise LowerError("unique_ptr::" + name)
         if cls == 'handle':
             hn = re.sub(r'[^A-Za-z0-9]', '_', self.types.ctype(t).replace('struct ', ''))
-            a = [self.ex(x) for x in args]
+            a = [self.ex(x) for x in args if x.get('kind') != 'CXXDefaultArgExpr']
             return '%s__%s(%s)' % (hn, re.sub(r'[^A-Za-z0-9_]', '_', name), ', '.join([optr] + a))
         raise LowerError("method %s on %s" % (name, cls))
 
@@ -840,6 +861,8 @@ class Lower:
             return 'lib_%s(%s)' % (name, ', '.join(a))
         if name in ('move', 'forward'):
             return a[0]
+        if name == 'any_cast':
+            return 'any_cast__%s(%s)' % (self.types.mangle(qt(n)), ', '.join(self.addr(x) for x in a))
         if name in ('to_string',):
             return 'cstring__opaque()'
         raise LowerError("library call outside rule table: %s" % name)
@@ -1087,6 +1110,12 @@ class Lower:
                 return c
         return None
 
+    def ex_CXXTypeidExpr(self, n):
+        ta = n.get('typeArg', {}).get('qualType')
+        if not ta:
+            raise LowerError('typeid of an expression')
+        return 'typeid__%s()' % self.types.mangle(ta)
+
     def ex_CXXThrowExpr(self, n):
         raise LowerError("throw in expression position")
 
@@ -1155,6 +1184,9 @@ class Lower:
         s = strip(n)
         if s.get('kind') == 'CXXThrowExpr':
             return self.st_throw(s, ind, out)
+        if self.is_cerr_stmt(s):
+            out.append(ind + '/* std::cerr / std::cout output dropped */ ;')
+            return
         hc = self.has_call(s)
         k = s.get('kind')
         # assignment whose rhs may throw: evaluate rhs first (C++ leaves lhs untouched on throw)
@@ -1253,9 +1285,16 @@ class Lower:
         pt = parse_type(tq)
         init = [c for c in kids(v)]
         if pt.kind == 'arr' and not pt.arr.isdigit():
-            # VLA (writer.cpp): keep as VLA, remember its length expression for sizeof
-            # clang JSON: the size expression is not among the children; recover it from the type text
-            raise LowerError("VLA must be handled by the unit's configuration")
+            # VLA (writer.cpp): kept as a C VLA; its bound must be the name of a local (clang prints the bound in the type)
+            bound = pt.arr
+            if not any(bound == n for n, _ in self.cur.locals) and not any(bound == p[1] for p in self.cur.params):
+                raise LowerError("VLA bound %r is not a local of the function" % bound)
+            ct = self.types.ctype(pt.to)
+            self.cur.locals.append((name, ct + '[]'))
+            self.vla_len[v['id']] = '(%s) * sizeof(%s)' % (bound, ct)
+            out.append('%sVLA_CHECK((%s) * sizeof(%s));' % (ind, bound, ct))
+            out.append('%s%s %s[%s];' % (ind, ct, name, bound))
+            return
         ct = self.types.ctype(pt) if pt.kind != 'arr' else None
         if pt.kind == 'arr':
             ct = self.types.ctype(pt.to)
@@ -1287,6 +1326,9 @@ class Lower:
                 out.append('%s%s %s;' % (ind, ct, name))
             return
         i0 = init[0]
+        if strip(i0).get('kind') == 'CXXConstructExpr' and not kids(strip(i0)) and self.types.classify(pt)[0] == 'handle':
+            out.append('%s%s %s;' % (ind, ct, name))      # default-constructed library object (struct stat, ...)
+            return
         if isref:
             e = self.ex(i0)
             self.flush_pre(out, ind)
